@@ -123,6 +123,18 @@ func (p *c05) Init(tier string) {
 		}
 	}
 	rec(nil)
+	// sort keys of a native Go integer type (documents built by programs): numbers with different
+	// digit counts and negative ones, whose numeric order differs from the order of their texts
+	for _, mk := range []func(v int) any{func(v int) any { return int64(v) }, func(v int) any { return v }, func(v int) any { return int32(v) }} {
+		for _, vals := range [][]int{{9, 10}, {10, 9, 100}, {-5, -50, 7}, {120, 7, 100, 8, -3}} {
+			rows := []any{}
+			for i, v := range vals {
+				rows = append(rows, map[string]any{"id": float64(i), "a": mk(v), "b": []string{"x", "y"}[i%2], "w": 1.0})
+			}
+			p.tables = append(p.tables, rows)
+			p.hasNil = append(p.hasNil, false)
+		}
+	}
 	// larger tables (sorting algorithms switch strategy with the length: 12, 50, ...)
 	for _, n := range []int{14, 33, 70} {
 		rows := []any{}
@@ -195,7 +207,7 @@ func (p *c05) runAgg(r *core.CaseResult, c *c05case, sql string) {
 			cnt++
 			sum += m["id"].(float64)
 			any1 = true
-			if a, ok := m["a"].(float64); ok && (mx == nil || a > mx.(float64)) {
+			if a, ok := gq.Num(m["a"]); ok && m["a"] != nil && (mx == nil || a > mx.(float64)) {
 				mx = a
 			}
 		}
@@ -256,6 +268,12 @@ func cmpKeys(x, y map[string]any, ks []OrderKey) int {
 			return -1
 		}
 		var c int
+		if _, isStr := a.(string); !isStr {
+			// numbers of any Go numeric type (one type per column), compared by value
+			an, _ := gq.Num(a)
+			bn, _ := gq.Num(b)
+			a, b = an, bn
+		}
 		switch av := a.(type) {
 		case float64:
 			bv := b.(float64)
@@ -474,7 +492,7 @@ func (p *c05) runDistinct(r *core.CaseResult, c *c05case, sql string) {
 
 func (p *c05) Meta() core.Meta {
 	return core.Meta{
-		Rule: "one case per (key list in {none, a, a DESC, b, b DESC, 5 two-key lists}, limit in {absent,0..5}, offset in {absent,0..5}, both LIMIT spellings, with/without WHERE), the same windows inside a CTE body and a derived table, LIMIT / OFFSET on select lists made only of aggregates (one-row sequence), and (SELECT DISTINCT b with {no key, b, b DESC} x limit 0..3 x offset absent,0..3), run on every table of <= 3 (thorough 5) rows over 7 archetypes (ties on each key, a NULL key; plus three tables of 14, 33 and 70 rows; NULL tables skipped for two-key lists); non-trivial = the expected window has > 1 row or selects 1 of several",
+		Rule: "one case per (key list in {none, a, a DESC, b, b DESC, 5 two-key lists}, limit in {absent,0..5}, offset in {absent,0..5}, both LIMIT spellings, with/without WHERE), the same windows inside a CTE body and a derived table, LIMIT / OFFSET on select lists made only of aggregates (one-row sequence), and (SELECT DISTINCT b with {no key, b, b DESC} x limit 0..3 x offset absent,0..3), run on every table of <= 3 (thorough 5) rows over 7 archetypes (ties on each key, a NULL key; plus three tables of 14, 33 and 70 rows and 12 tables whose numeric key is of a native Go integer type; NULL tables skipped for two-key lists); non-trivial = the expected window has > 1 row or selects 1 of several",
 		Assumptions: []string{
 			"tie order is not fixed by the property: with ORDER BY the key tuples of the output are compared with those of the reference-sorted window, and the rows must be distinct source rows that passed WHERE",
 			"NULL placement is specified for a single sort key only",
